@@ -26,6 +26,18 @@ CHECKS = {
  "C17": dict(cat="exploration", tech="invariant hooks: reply counts vs shadow, STATE counters vs census, reachability/refcount audit under the shard mutexes, zero-after-drain",
     text="LCount/LRCount of every reply and the STATE counters after every step are compared with the shadow and with a census walked under the code's own shard mutexes (holder lists, wait queues, all wheel slots, long tables, free pools, reference counts); after a drain phase everything must be zero and no finished record reachable. Server ERROR log lines (internal inconsistency reports) are captured and count as violations.",
     note="Counts are compared where they are determinate (sequential engine).", ref="3/C17"),
+ "C13": dict(cat="exploration", tech="crash monitor + canary connection over generated hostile byte streams, child process per batch (inputs logged before sending)",
+    text="20 000 (quick) / 2 000 000 (thorough) PRNG byte streams from four generators (structurally valid frames of every command type with arbitrary fields and arbitrary / inconsistent value frames incl. every length 0..64, nested pipelines and executes; every registered text command with 0-8 dictionary/numeric/binary arguments; mutated streams; random streams) are delivered whole, 2-way split or k-way split to the real Server.handle over in-memory connections. The oracle is: the server process stays alive and a canary binary + text connection opened before the batch keeps getting exactly the expected replies. A crash is attributed to the logged input and classified by top repository frame + panic class. Eight crash classes found on the original tree were repaired (see known_findings.json).",
+    note="SHUTDOWN, FLUSHDB/FLUSHALL, SLAVEOF, REPLSET, CONFIG SET, CLIENT KILL are never sent (they stop / reconfigure the node or kill connections by design). net.Pipe connections; canary watchdog 20 s wall time.", ref="3/C13"),
+ "C15": dict(cat="exploration", tech="reference-model monitor: sequential value interpreter vs the value frames carried by every reply (E1 virtual-clock engine)",
+    text="On the C01 engine, 70% of the lock / re-lock / update / unlock requests of several LockIds of a key carry a type-consistent value operation (SET, UNSET, INCR incl. overflow, APPEND, SHIFT and POP beyond length, PUSH, PIPELINE, with and without property headers); every reply's value frame must equal the value a sequential reference interpreter computed before the operation, refused requests must leave it unchanged, show-queries observe it in between. One defect repaired (SHIFT beyond length crashed), one recorded as open known finding (multi-operation PIPELINE re-bases).",
+    note="Type-consistent sequences only; property contents not compared; the value of a key that is not held is outside the property. Redis-style text commands are not yet covered by this check.", ref="3/C15"),
+ "C18": dict(cat="exploration", tech="observer connection + in-package census over generated connection lifetimes (virtual clock, event-based waits)",
+    text="1 500 (quick) / 50 000 (thorough) PRNG connection lifetimes through the real Server.handle: a binary (with/without INIT) or text subject registers 0-7 WILL locks that APPEND distinct letters to one key (so once / in order is read off the value; re-entrant so a double execution shows as depth 2) and optionally a WILL unlock, takes a hold, leaves a queued request and ends by client close / protocol error / QUIT before or after the queued request is granted or timed out, with or without a reconnect under the same client id. An observer connection and the census decide: no will effect before the end, exact effect after it, holds survive until expiry, queued requests end, late replies reach the reconnected client, nobody receives a foreign RequestId, everything is reclaimed after a drain. Two defects of the text protocol's WILL handling were repaired.",
+    note="Server-side close is produced with QUIT; waits are on events with a 20 s watchdog whose firing is inconclusive.", ref="3/C18"),
+ "C20": dict(cat="exploration", tech="model-based differential monitor: every internal queue driven through its production call patterns against a slice / stable-priority-queue model",
+    text="5 000 (quick) / 500 000 (thorough) PRNG operation sequences over LockQueue / LockCommandQueue / LockManagerQueue (all small constructor triples and the production ones), the per-key holder queue (through LockManager.AddLock/RemoveLock/GetLockedLock), the wait queue and (priority) ring queues (through AddWaitLock/GetWaitLock), the long-wait queues (through LockDB.AddTimeOut/AddExpried/RemoveLong*/the sweeper's drain) and the free pools; every returned element, Len, Head, Tail, MaxPriority and the iterated content are compared with a plain model; counters record node-boundary crossings, growths, resizes, representation switches and restructures with holes actually taken. One defect repaired (long-wait queue restructure).",
+    note="Operations are only generated in states production can reach (Shrink is never called in production and is not generated; Rellac only on an empty queue; Reset of holder/wait queues only when empty); restrictions are listed in the evidence assumptions.", ref="3/C20"),
 }
 NA = {}
 ALL = ["C%02d" % i for i in range(1, 21)]
